@@ -60,7 +60,5 @@ m = {
     "not_applicable": na,
     "notes": "Every check: ./check <ID> <quick|thorough>; VERIF_SEED selects the Hypothesis seed; exit 2 = harness error without any violation (never reported as a violation). known_findings.json lists recorded defects (known) and repaired ones (fixed).",
 }
-if not na:
-    del m["not_applicable"]
 json.dump(m, open(os.path.join(HERE, "MANIFEST.json"), "w"), indent=1)
 print("claimed", len(checks), "not_applicable", len(na))
